@@ -747,6 +747,7 @@ func parseBinOps(expr string, n *promParser.BinaryExpr) (src []Source) {
 	case n.VectorMatching.Card == promParser.CardOneToOne:
 		rhs := walkNode(expr, n.RHS)
 		for _, s = range walkNode(expr, n.LHS) {
+			onLabels := joinLabels(s, n.VectorMatching)
 			if n.VectorMatching.On {
 				s.FixedLabels = true
 				s = includeLabel(s, n.VectorMatching.MatchingLabels...)
@@ -787,7 +788,7 @@ func parseBinOps(expr string, n *promParser.BinaryExpr) (src []Source) {
 				s.Operation = n.VectorMatching.Card.String()
 			}
 			for _, rs := range rhs {
-				if ok, s, pos := canJoin(s, rs, n.VectorMatching); !ok {
+				if ok, s, pos := canJoin(s, rs, n.VectorMatching, onLabels); !ok {
 					rs.IsDead = true
 					rs.IsDeadReason = s
 					rs.IsDeadPosition = pos
@@ -805,6 +806,7 @@ func parseBinOps(expr string, n *promParser.BinaryExpr) (src []Source) {
 	case n.VectorMatching.Card == promParser.CardOneToMany:
 		lhs := walkNode(expr, n.LHS)
 		for _, s = range walkNode(expr, n.RHS) {
+			onLabels := joinLabels(s, n.VectorMatching)
 			s = includeLabel(s, n.VectorMatching.Include...)
 			// If we have:
 			// foo * on(instance) group_left(a,b) bar{x="y"}
@@ -816,7 +818,7 @@ func parseBinOps(expr string, n *promParser.BinaryExpr) (src []Source) {
 				s.Operation = n.VectorMatching.Card.String()
 			}
 			for _, ls := range lhs {
-				if ok, s, pos := canJoin(s, ls, n.VectorMatching); !ok {
+				if ok, s, pos := canJoin(s, ls, n.VectorMatching, onLabels); !ok {
 					ls.IsDead = true
 					ls.IsDeadReason = s
 					ls.IsDeadPosition = pos
@@ -834,6 +836,7 @@ func parseBinOps(expr string, n *promParser.BinaryExpr) (src []Source) {
 	case n.VectorMatching.Card == promParser.CardManyToOne:
 		rhs := walkNode(expr, n.RHS)
 		for _, s = range walkNode(expr, n.LHS) {
+			onLabels := joinLabels(s, n.VectorMatching)
 			s = includeLabel(s, n.VectorMatching.Include...)
 			if n.VectorMatching.On {
 				s = includeLabel(s, n.VectorMatching.MatchingLabels...)
@@ -842,7 +845,7 @@ func parseBinOps(expr string, n *promParser.BinaryExpr) (src []Source) {
 				s.Operation = n.VectorMatching.Card.String()
 			}
 			for _, rs := range rhs {
-				if ok, s, pos := canJoin(s, rs, n.VectorMatching); !ok {
+				if ok, s, pos := canJoin(s, rs, n.VectorMatching, onLabels); !ok {
 					rs.IsDead = true
 					rs.IsDeadReason = s
 					rs.IsDeadPosition = pos
@@ -863,6 +866,7 @@ func parseBinOps(expr string, n *promParser.BinaryExpr) (src []Source) {
 		rhs := walkNode(expr, n.RHS)
 		for _, s = range walkNode(expr, n.LHS) {
 			var rhsConditional bool
+			onLabels := joinLabels(s, n.VectorMatching)
 			if n.VectorMatching.On {
 				s = includeLabel(s, n.VectorMatching.MatchingLabels...)
 			}
@@ -877,7 +881,7 @@ func parseBinOps(expr string, n *promParser.BinaryExpr) (src []Source) {
 				if isConditional {
 					rhsConditional = true
 				}
-				if ok, s, pos := canJoin(s, rs, n.VectorMatching); !ok {
+				if ok, s, pos := canJoin(s, rs, n.VectorMatching, onLabels); !ok {
 					rs.IsDead = true
 					rs.IsDeadReason = s
 					rs.IsDeadPosition = pos
@@ -933,7 +937,20 @@ func checkConditions(s Source, op promParser.ItemType, isBool bool) (isCondition
 	return isConditional, isReturnBool
 }
 
-func canJoin(ls, rs Source, vm *promParser.VectorMatching) (bool, string, posrange.PositionRange) {
+// Labels listed in on(...) that the source can have on its own, before on(...) makes them part of the results.
+func joinLabels(s Source, vm *promParser.VectorMatching) (names []string) {
+	if !vm.On {
+		return nil
+	}
+	for _, name := range vm.MatchingLabels {
+		if s.CanHaveLabel(name) {
+			names = append(names, name)
+		}
+	}
+	return names
+}
+
+func canJoin(ls, rs Source, vm *promParser.VectorMatching, onLabels []string) (bool, string, posrange.PositionRange) {
 	var side string
 	if vm.Card == promParser.CardOneToMany {
 		side = "left"
@@ -945,8 +962,8 @@ func canJoin(ls, rs Source, vm *promParser.VectorMatching) (bool, string, posran
 	case vm.On && len(vm.MatchingLabels) == 0: // ls on() unless rs
 		return true, "", posrange.PositionRange{}
 	case vm.On: // ls on(...) unless rs
-		for _, name := range vm.MatchingLabels {
-			if ls.CanHaveLabel(name) && !rs.CanHaveLabel(name) {
+		for _, name := range onLabels {
+			if !rs.CanHaveLabel(name) {
 				return false, fmt.Sprintf("The %s hand side will never be matched because it doesn't have the `%s` label from `on(...)`. %s",
 					side, name, rs.LabelExcludeReason(name).Reason), rs.LabelExcludeReason(name).Fragment
 			}
